@@ -29,6 +29,9 @@ INPUTS.update({
     "dup-proto": asm(("PROTO", 4), ("PROTO", 4), ("BININT1", 1), "STOP"),
     "misplaced-proto": asm(("BININT1", 1), ("PROTO", 2), "STOP"),
     "canary-dotted": asm(("GLOBAL", ("vp_canary_pkg.sub", "boom")), "EMPTY_TUPLE", "REDUCE", "STOP"),
+    # several findings of different severities, the lower ones reported by analyses that run earlier
+    "nonstd-import+eval": asm(("GLOBAL", ("vp_sink", "other")), "POP", ("GLOBAL", ("builtins", "eval")), sbu("1+1"), "TUPLE1", "REDUCE", "STOP"),
+    "dup-proto+os-import": asm(("PROTO", 2), ("PROTO", 2), ("GLOBAL", ("posix", "getpid")), "STOP"),
 })
 COMPUTED = {"inst-call": "LIKELY_UNSAFE", "dup-proto": "LIKELY_UNSAFE", "misplaced-proto": "LIKELY_UNSAFE", "canary-dotted": "LIKELY_UNSAFE"}
 FAILING = {
@@ -45,8 +48,12 @@ FAILING = {
     "garbage": b"\xff\xfe not a pickle",
 }
 THRESHOLDS = ("LIKELY_SAFE", "POSSIBLY_UNSAFE", "SUSPICIOUS", "LIKELY_UNSAFE", "LIKELY_OVERTLY_MALICIOUS", "OVERTLY_MALICIOUS")
-ARMINGS = ("fickling.load", "global-hook", "context-manager")
-KINDS = ("bytes", "BytesIO", "file", "nonseekable")
+_BASE_ARMINGS = ("fickling.load", "global-hook", "context-manager")
+PRIOR = "+after-permissive-context"  # a context accepting every verdict was entered and left earlier in the process
+ARMINGS = _BASE_ARMINGS + tuple(a + PRIOR for a in _BASE_ARMINGS)
+# "BytesIO@offset": the pickle sits behind another one in the buffer and the stream is positioned at its start; the
+# pickle in front is a sink call when the input is benign and a harmless constant when the input itself is flagged
+KINDS = ("bytes", "BytesIO", "file", "nonseekable", "BytesIO@offset")
 
 
 def restore():
@@ -112,6 +119,13 @@ def armed_load(arming, src, threshold):
     from fickling.analysis import Severity
 
     restore()
+    if arming.endswith(PRIOR):
+        arming = arming[: -len(PRIOR)]
+        from fickling.context import FicklingContextManager
+
+        with FicklingContextManager(max_acceptable_severity=Severity.OVERTLY_MALICIOUS):
+            pass
+        restore()
     try:
         try:
             if arming == "fickling.load":
@@ -144,11 +158,20 @@ def observe(fn):
     return res, log, fc
 
 
+_FRONT_BENIGN = asm(sbu("front"), "STOP")
+_FRONT_SINK = asm(("GLOBAL", ("vp_sink", "hit")), sbu("front"), "TUPLE1", "REDUCE", "STOP")
+
+
 def make_src(kind, data, wd):
     if kind == "bytes":
         return bytes(data), None
     if kind == "BytesIO":
         return io.BytesIO(data), None
+    if kind == "BytesIO@offset":
+        front = _FRONT_BENIGN if b"vp_sink" in data else _FRONT_SINK
+        bio = io.BytesIO(front + data)
+        bio.seek(len(front))
+        return bio, None
     if kind == "file":
         path = os.path.join(wd, f"c02-{os.getpid()}.pkl")
         with open(path, "wb") as f:
@@ -165,7 +188,7 @@ def _config(item):
     out = e1.Out()
     st = out.stats
     st.inc("loads")
-    eff_threshold = threshold if arming == "fickling.load" else "LIKELY_SAFE"
+    eff_threshold = threshold if arming.startswith("fickling.load") else "LIKELY_SAFE"
     rp = {"engine": "E3", "input": name, "arming": arming, "stream": kind, "threshold": threshold, "bytes": data}
     import sys as _sys
 
@@ -290,13 +313,13 @@ def check(tier):
     with e3.Scratch("c02") as wd:
         items = []
         for (name, data), arming, kind in itertools.product(allin.items(), ARMINGS, KINDS):
-            ths = THRESHOLDS if arming == "fickling.load" else ("LIKELY_SAFE",)
+            ths = THRESHOLDS if arming.startswith("fickling.load") else ("LIKELY_SAFE",)
             for th in ths:
                 items.append((name, data, arming, kind, th, wd))
         e3.pmap(_config, items, rep, chunksize=8)
     # unfaulted run to learn how many stream calls a load makes, then every fault point
     flips = []
-    for arming in ARMINGS:
+    for arming in _BASE_ARMINGS:
         s = Flipping(BENIGN, MALICIOUS, None)
         armed_load(arming, s, "LIKELY_SAFE")
         n1 = s.calls
